@@ -1149,6 +1149,223 @@ func lemmaC13_max_payload_AS923_4(rep bool, dt lorawan.DwellTime, ver, rev strin
 	_ = p
 }
 
+// ---------------------------------------------------------------------------- US915
+// C12: every accepted (uplink DR, RX1 offset) gives a data-rate that is defined for downlink;
+// negative / too large arguments give an error (the accessors are total: safety obligations)
+func lemmaC12_rx1_closed_US915(rep bool, dr, off int) {
+	b, _ := newUS902Band(rep)
+	r, err := b.GetRX1DataRateIndex(dr, off)
+	if err != nil {
+		return
+	}
+	d, err2 := b.GetDataRate(r)
+	verifAssert(err2 == nil, "rx1-defined")
+	verifAssert(err2 != nil || d.downlink, "rx1-downlink")
+	up, err3 := b.GetDataRate(dr)
+	verifAssert(err3 == nil && up.uplink, "rx1-uplink-dr")
+}
+
+// C12: over the region's positive offsets the RX1 data-rate never increases and moves down by at most one step
+func lemmaC12_rx1_monotone_US915(rep bool, dr, off int) {
+	verifAssume(off >= 0 && off < 3)
+	b, _ := newUS902Band(rep)
+	r0, err0 := b.GetRX1DataRateIndex(dr, off)
+	r1, err1 := b.GetRX1DataRateIndex(dr, off+1)
+	if err0 != nil || err1 != nil {
+		return
+	}
+	verifAssert(r1 <= r0, "rx1-nonincreasing")
+	verifAssert(r1 >= r0-1, "rx1-one-step")
+}
+
+// C13: a defined data-rate looked up by its parameters (in a direction it supports) gives the same index;
+// distinct defined data-rates of one direction have distinct parameters (so the map iteration order is irrelevant)
+func lemmaC13_dr_index_US915(rep bool, i, j int) {
+	b, _ := newUS902Band(rep)
+	d, err := b.GetDataRate(i)
+	if err != nil {
+		return
+	}
+	if d.uplink {
+		k, e := b.GetDataRateIndex(true, d)
+		verifAssert(e == nil && k == i, "dr-index-uplink")
+	}
+	if d.downlink {
+		k, e := b.GetDataRateIndex(false, d)
+		verifAssert(e == nil && k == i, "dr-index-downlink")
+	}
+	d2, err2 := b.GetDataRate(j)
+	if err2 != nil || i == j {
+		return
+	}
+	same := d.Modulation == d2.Modulation && d.Bandwidth == d2.Bandwidth && d.BitRate == d2.BitRate && d.SpreadFactor == d2.SpreadFactor && d.OccupiedChannelWidth == d2.OccupiedChannelWidth && d.CodingRate == d2.CodingRate
+	verifAssert(!(same && d.uplink && d2.uplink), "dr-unique-uplink")
+	verifAssert(!(same && d.downlink && d2.downlink), "dr-unique-downlink")
+}
+
+// C13: under the fallback ("latest") revision every defined data-rate has a maximum payload size (unknown
+// version / revision strings resolve to it), M = N + 8, N <= 242, and repeater sizes never exceed the others
+func lemmaC13_max_payload_US915(rep bool, ver, rev string, i int) {
+	b, _ := newUS902Band(rep)
+	_, err := b.GetDataRate(i)
+	if err != nil {
+		return
+	}
+	p, e := b.GetMaxPayloadSizeForDataRateIndex("not-a-version", "not-a-revision", i)
+	verifAssert(e == nil, "latest-has-entry")
+	q, e2 := b.GetMaxPayloadSizeForDataRateIndex(ver, rev, i)
+	if e2 == nil {
+		verifAssert((q.M == q.N+8 && q.N <= 242) || (q.M == 0 && q.N == 0), "size-shape")
+	}
+	_ = p
+}
+
+// ---------------------------------------------------------------------------- CN470
+// C12: every accepted (uplink DR, RX1 offset) gives a data-rate that is defined for downlink;
+// negative / too large arguments give an error (the accessors are total: safety obligations)
+func lemmaC12_rx1_closed_CN470(rep bool, dr, off int) {
+	b, _ := newCN470Band(rep)
+	r, err := b.GetRX1DataRateIndex(dr, off)
+	if err != nil {
+		return
+	}
+	d, err2 := b.GetDataRate(r)
+	verifAssert(err2 == nil, "rx1-defined")
+	verifAssert(err2 != nil || d.downlink, "rx1-downlink")
+	up, err3 := b.GetDataRate(dr)
+	verifAssert(err3 == nil && up.uplink, "rx1-uplink-dr")
+}
+
+// C12: over the region's positive offsets the RX1 data-rate never increases and moves down by at most one step
+func lemmaC12_rx1_monotone_CN470(rep bool, dr, off int) {
+	verifAssume(off >= 0 && off < 5)
+	b, _ := newCN470Band(rep)
+	r0, err0 := b.GetRX1DataRateIndex(dr, off)
+	r1, err1 := b.GetRX1DataRateIndex(dr, off+1)
+	if err0 != nil || err1 != nil {
+		return
+	}
+	verifAssert(r1 <= r0, "rx1-nonincreasing")
+	verifAssert(r1 >= r0-1, "rx1-one-step")
+}
+
+// C13: a defined data-rate looked up by its parameters (in a direction it supports) gives the same index;
+// distinct defined data-rates of one direction have distinct parameters (so the map iteration order is irrelevant)
+func lemmaC13_dr_index_CN470(rep bool, i, j int) {
+	b, _ := newCN470Band(rep)
+	d, err := b.GetDataRate(i)
+	if err != nil {
+		return
+	}
+	if d.uplink {
+		k, e := b.GetDataRateIndex(true, d)
+		verifAssert(e == nil && k == i, "dr-index-uplink")
+	}
+	if d.downlink {
+		k, e := b.GetDataRateIndex(false, d)
+		verifAssert(e == nil && k == i, "dr-index-downlink")
+	}
+	d2, err2 := b.GetDataRate(j)
+	if err2 != nil || i == j {
+		return
+	}
+	same := d.Modulation == d2.Modulation && d.Bandwidth == d2.Bandwidth && d.BitRate == d2.BitRate && d.SpreadFactor == d2.SpreadFactor && d.OccupiedChannelWidth == d2.OccupiedChannelWidth && d.CodingRate == d2.CodingRate
+	verifAssert(!(same && d.uplink && d2.uplink), "dr-unique-uplink")
+	verifAssert(!(same && d.downlink && d2.downlink), "dr-unique-downlink")
+}
+
+// C13: under the fallback ("latest") revision every defined data-rate has a maximum payload size (unknown
+// version / revision strings resolve to it), M = N + 8, N <= 242, and repeater sizes never exceed the others
+func lemmaC13_max_payload_CN470(rep bool, ver, rev string, i int) {
+	b, _ := newCN470Band(rep)
+	_, err := b.GetDataRate(i)
+	if err != nil {
+		return
+	}
+	p, e := b.GetMaxPayloadSizeForDataRateIndex("not-a-version", "not-a-revision", i)
+	verifAssert(e == nil, "latest-has-entry")
+	q, e2 := b.GetMaxPayloadSizeForDataRateIndex(ver, rev, i)
+	if e2 == nil {
+		verifAssert((q.M == q.N+8 && q.N <= 242) || (q.M == 0 && q.N == 0), "size-shape")
+	}
+	_ = p
+}
+
+// ---------------------------------------------------------------------------- AU915
+// C12: every accepted (uplink DR, RX1 offset) gives a data-rate that is defined for downlink;
+// negative / too large arguments give an error (the accessors are total: safety obligations)
+func lemmaC12_rx1_closed_AU915(rep bool, dt lorawan.DwellTime, dr, off int) {
+	verifAssume(dt == lorawan.DwellTimeNoLimit || dt == lorawan.DwellTime400ms)
+	b, _ := newAU915Band(rep, dt)
+	r, err := b.GetRX1DataRateIndex(dr, off)
+	if err != nil {
+		return
+	}
+	d, err2 := b.GetDataRate(r)
+	verifAssert(err2 == nil, "rx1-defined")
+	verifAssert(err2 != nil || d.downlink, "rx1-downlink")
+	up, err3 := b.GetDataRate(dr)
+	verifAssert(err3 == nil && up.uplink, "rx1-uplink-dr")
+}
+
+// C12: over the region's positive offsets the RX1 data-rate never increases and moves down by at most one step
+func lemmaC12_rx1_monotone_AU915(rep bool, dt lorawan.DwellTime, dr, off int) {
+	verifAssume(dt == lorawan.DwellTimeNoLimit || dt == lorawan.DwellTime400ms)
+	verifAssume(off >= 0 && off < 5)
+	b, _ := newAU915Band(rep, dt)
+	r0, err0 := b.GetRX1DataRateIndex(dr, off)
+	r1, err1 := b.GetRX1DataRateIndex(dr, off+1)
+	if err0 != nil || err1 != nil {
+		return
+	}
+	verifAssert(r1 <= r0, "rx1-nonincreasing")
+	verifAssert(r1 >= r0-1, "rx1-one-step")
+}
+
+// C13: a defined data-rate looked up by its parameters (in a direction it supports) gives the same index;
+// distinct defined data-rates of one direction have distinct parameters (so the map iteration order is irrelevant)
+func lemmaC13_dr_index_AU915(rep bool, dt lorawan.DwellTime, i, j int) {
+	verifAssume(dt == lorawan.DwellTimeNoLimit || dt == lorawan.DwellTime400ms)
+	b, _ := newAU915Band(rep, dt)
+	d, err := b.GetDataRate(i)
+	if err != nil {
+		return
+	}
+	if d.uplink {
+		k, e := b.GetDataRateIndex(true, d)
+		verifAssert(e == nil && k == i, "dr-index-uplink")
+	}
+	if d.downlink {
+		k, e := b.GetDataRateIndex(false, d)
+		verifAssert(e == nil && k == i, "dr-index-downlink")
+	}
+	d2, err2 := b.GetDataRate(j)
+	if err2 != nil || i == j {
+		return
+	}
+	same := d.Modulation == d2.Modulation && d.Bandwidth == d2.Bandwidth && d.BitRate == d2.BitRate && d.SpreadFactor == d2.SpreadFactor && d.OccupiedChannelWidth == d2.OccupiedChannelWidth && d.CodingRate == d2.CodingRate
+	verifAssert(!(same && d.uplink && d2.uplink), "dr-unique-uplink")
+	verifAssert(!(same && d.downlink && d2.downlink), "dr-unique-downlink")
+}
+
+// C13: under the fallback ("latest") revision every defined data-rate has a maximum payload size (unknown
+// version / revision strings resolve to it), M = N + 8, N <= 242, and repeater sizes never exceed the others
+func lemmaC13_max_payload_AU915(rep bool, dt lorawan.DwellTime, ver, rev string, i int) {
+	verifAssume(dt == lorawan.DwellTimeNoLimit || dt == lorawan.DwellTime400ms)
+	b, _ := newAU915Band(rep, dt)
+	_, err := b.GetDataRate(i)
+	if err != nil {
+		return
+	}
+	p, e := b.GetMaxPayloadSizeForDataRateIndex("not-a-version", "not-a-revision", i)
+	verifAssert(e == nil, "latest-has-entry")
+	q, e2 := b.GetMaxPayloadSizeForDataRateIndex(ver, rev, i)
+	if e2 == nil {
+		verifAssert((q.M == q.N+8 && q.N <= 242) || (q.M == 0 && q.N == 0), "size-shape")
+	}
+	_ = p
+}
+
 // ---------------------------------------------------------------------------
 // C12: the RX1 data-rate equals the region's rule where the Regional Parameters define it by formula
 // ---------------------------------------------------------------------------
@@ -1356,6 +1573,22 @@ func lemmaC12_rx1_rule_AS923_4(rep bool, dt lorawan.DwellTime, dr, off int) {
 	}
 	if want > 5 {
 		want = 5
+	}
+	verifAssert(err != nil || r == want, "rx1-rule")
+}
+
+// US915: RX1DR = clamp(10 + DR - RX1DROffset, 8, 13) for the LoRa uplink data-rates DR 0..4, offset 0..3
+func lemmaC12_rx1_rule_US915(rep bool, dr, off int) {
+	verifAssume(0 <= dr && dr <= 4 && 0 <= off && off <= 3)
+	b, _ := newUS902Band(rep)
+	r, err := b.GetRX1DataRateIndex(dr, off)
+	verifAssert(err == nil, "accepted")
+	want := 10 + dr - off
+	if want < 8 {
+		want = 8
+	}
+	if want > 13 {
+		want = 13
 	}
 	verifAssert(err != nil || r == want, "rx1-rule")
 }
